@@ -67,6 +67,10 @@ func (h *huffmanOnly) encodeBlock(final bool, flush bool) error {
 		_, err := h.w.Write(h.buf.output[:h.buf.idx])
 		return err
 	}
+	if h.offset == 0 {
+		// nothing buffered: a block without data would also lack its end-of-block code
+		return nil
+	}
 
 	bytesFreq(&h.hist, h.buffer[:h.offset])
 	h.hist.reduceCounts()
@@ -81,7 +85,9 @@ func (h *huffmanOnly) encodeBlock(final bool, flush bool) error {
 	for num < h.offset {
 		h.buf.Sync()
 		num += optimizedEncodeBytes(&h.hist, h.buffer[num:h.offset], &h.buf)
-		if num == h.offset && flush {
+		if num == h.offset && final {
+			// only the last block of the stream is padded to a byte here; Flush
+			// aligns with the empty stored block it appends
 			h.buf.flushLastByte()
 		}
 		_, err := h.w.Write(h.buf.output[:h.buf.idx])
